@@ -46,6 +46,15 @@ Definition ch (n : N) : byte := n2b n.
 Definition t_0x : bytes := [ch 48; ch 120].
 Definition t_minus : bytes := [ch 45].
 
+(* the text s spells the byte string b in hex, in any letter case: two digits per byte, high one first *)
+Fixpoint hex_spells (s : bytes) (b : bytes) : Prop :=
+  match s, b with
+  | [], [] => True
+  | c1 :: c2 :: s', x :: b' =>
+      (exists h l, hex_val c1 = Some h /\ hex_val c2 = Some l /\ b2n x = h * 16 + l) /\ hex_spells s' b'
+  | _, _ => False
+  end.
+
 (* ---------- what a text denotes ---------- *)
 (* A number in scientific form denotes  m * 10^e  (m : Z, e : Z).  It is the integer q iff
    m * 10^max(e,0) = q * 10^max(-e,0). *)
@@ -98,6 +107,13 @@ Definition in_range (ty64 : bool) (q : Z) : bool :=
   if ty64 then ((0 <=? q) && (q <? 2 ^ 64))%Z else (0 <=? q)%Z.
 
 (* ---------- canonical print form ---------- *)
+(* lower-case hex digit character *)
+Definition is_lower_hex (c : byte) : bool :=
+  let n := b2n c in ((48 <=? n) && (n <=? 57)) || ((97 <=? n) && (n <=? 102)).
+(* [canonical_hex s n]: s is "0x" followed by lower-case hex digits without leading zeros whose value is n *)
+Definition canonical_hex (s : bytes) (n : N) : Prop :=
+  exists ds, s = t_0x ++ ds /\ hex_value ds = Some n /\ no_leading_zero ds = true /\ forallb is_lower_hex ds = true.
+
 (* "0x" followed by lower-case hex digits without leading zeros ("0x0" for zero) *)
 Definition spec_hex (n : N) : bytes := ascii_bytes (HexString.of_N n).
 Definition dquote : byte := ch 34.
@@ -140,8 +156,12 @@ Fixpoint take_digits (s : bytes) : bytes * bytes :=
   | [] => ([], [])
   end.
 
+Definition strip_minus (b : bytes) : bytes := match b with c :: t => if b2n c =? 45 then t else b | [] => b end.
+Definition strip_sign (b : bytes) : bytes :=
+  match b with y :: u => if (b2n y =? 43) || (b2n y =? 45) then u else b | [] => b end.
+
 Definition is_json_number (b : bytes) : bool :=
-  let s := match b with c :: t => if b2n c =? 45 then t else b | [] => b end in
+  let s := strip_minus b in
   let '(ip, r1) := take_digits s in
   if negb (no_leading_zero ip) then false else
   let r2 :=
@@ -159,7 +179,7 @@ Definition is_json_number (b : bytes) : bool :=
       | [] => true
       | c :: t =>
           if (b2n c =? 101) || (b2n c =? 69) then
-            let t' := match t with y :: u => if (b2n y =? 43) || (b2n y =? 45) then u else t | [] => t end in
+            let t' := strip_sign t in
             let '(d, r) := take_digits t' in
             match d, r with
             | _ :: _, [] => true
